@@ -46,6 +46,7 @@ func (n *Nodis) SDiff(keys ...string) []string {
 	}
 	var v []string
 	_ = n.exec(func(tx *Tx) error {
+		tx.lockKeys(nil, keys...)
 		meta := tx.readKey(keys[0])
 		if !meta.isOk() {
 			return nil
@@ -87,6 +88,7 @@ func (n *Nodis) SInter(keys ...string) []string {
 	}
 	var v []string
 	_ = n.exec(func(tx *Tx) error {
+		tx.lockKeys(nil, keys...)
 		meta := tx.readKey(keys[0])
 		if !meta.isOk() {
 			return nil
@@ -128,6 +130,7 @@ func (n *Nodis) SUnion(keys ...string) []string {
 	}
 	var v []string
 	_ = n.exec(func(tx *Tx) error {
+		tx.lockKeys(nil, keys...)
 		otherSets := make([]*set.Set, 0, len(keys))
 		for _, s := range keys {
 			setDs := tx.readKey(s)
@@ -249,6 +252,7 @@ func (n *Nodis) SPop(key string, count int64) []string {
 func (n *Nodis) SMove(source, destination, member string) bool {
 	var v bool
 	_ = n.exec(func(tx *Tx) error {
+		tx.lockKeys([]string{source, destination})
 		meta := tx.writeKey(source, nil)
 		if !meta.isOk() {
 			return nil
